@@ -81,3 +81,39 @@ pub open spec fn eo_x(c: Composer, s: Constraint) -> int {
     (s.q(0) * a * b + s.q(1) * a + s.q(2) * b + s.q(4) * d + s.q(5) + s.q(6)) % R()
 }
 }
+
+verus! {
+/// pure product row: q_M = 1, everything else 0
+pub proof fn lemma_eo_x_mul(c: Composer, s: Constraint)
+    requires s.q(0) == 1, s.q(1) == 0, s.q(2) == 0, s.q(4) == 0, s.q(5) == 0, s.q(6) == 0
+    ensures eo_x(c, s) == (wits(c)[s.w(0) as int] * wits(c)[s.w(1) as int]) % R()
+{
+    let a = wits(c)[s.w(0) as int];
+    let b = wits(c)[s.w(1) as int];
+    let d = wits(c)[s.w(3) as int];
+    assert(1 * a * b + 0 * a + 0 * b + 0 * d + 0 + 0 == a * b) by(nonlinear_arith);
+}
+
+/// linear row: q_M = 0
+pub proof fn lemma_eo_x_lin(c: Composer, s: Constraint)
+    requires s.q(0) == 0
+    ensures eo_x(c, s) == (s.q(1) * wits(c)[s.w(0) as int] + s.q(2) * wits(c)[s.w(1) as int] + s.q(4) * wits(c)[s.w(3) as int] + s.q(5) + s.q(6)) % R()
+{
+    let a = wits(c)[s.w(0) as int];
+    let b = wits(c)[s.w(1) as int];
+    assert(0 * a * b == 0) by(nonlinear_arith);
+}
+}
+
+verus! {
+/// sum row: q_L = q_R = 1, everything else 0
+pub proof fn lemma_eo_x_add(c: Composer, s: Constraint)
+    requires s.q(0) == 0, s.q(1) == 1, s.q(2) == 1, s.q(4) == 0, s.q(5) == 0, s.q(6) == 0
+    ensures eo_x(c, s) == (wits(c)[s.w(0) as int] + wits(c)[s.w(1) as int]) % R()
+{
+    let a = wits(c)[s.w(0) as int];
+    let b = wits(c)[s.w(1) as int];
+    let d = wits(c)[s.w(3) as int];
+    assert(0 * a * b + 1 * a + 1 * b + 0 * d + 0 + 0 == a + b) by(nonlinear_arith);
+}
+}
